@@ -218,6 +218,55 @@ static void statement(const char* tag, const std::vector<ItemV>& items, const st
     });
 }
 
+template <typename L, sl Sev>
+static auto make_stream(const char* tag)
+{
+    if constexpr (Sev == sl::trace)
+        return L::trace(tag);
+    else if constexpr (Sev == sl::debug)
+        return L::debug(tag);
+    else if constexpr (Sev == sl::info)
+        return L::info(tag);
+    else if constexpr (Sev == sl::warn)
+        return L::warn(tag);
+    else if constexpr (Sev == sl::error)
+        return L::error(tag);
+    else
+        return L::fatal(tag);
+}
+
+// two named streams alive in one scope, insertions alternating a, b, a, b, ...
+template <typename L, sl SA, sl SB>
+static void overlap2(const char* ta, const std::vector<ItemV>& ia, const char* tb, const std::vector<ItemV>& ib)
+{
+    auto a = make_stream<L, SA>(ta);
+    auto b = make_stream<L, SB>(tb);
+    std::size_t i = 0, j = 0;
+    while (i < ia.size() || j < ib.size())
+    {
+        if (i < ia.size() && j < ib.size())
+        {
+            insert_one(a, ia[i++], [](auto&&) {});
+            insert_one(b, ib[j++], [](auto&&) {});
+        }
+        else if (i < ia.size())
+            insert_one(a, ia[i++], [](auto&&) {});
+        else
+            insert_one(b, ib[j++], [](auto&&) {});
+    }
+    // scope ends: b is destroyed first, then a
+}
+
+template <typename L, sl SA>
+static void overlap1(int sb, const char* ta, const std::vector<ItemV>& ia, const char* tb, const std::vector<ItemV>& ib)
+{
+    constexpr sl NEXT = static_cast<sl>((static_cast<int>(SA) + 1) % 6);
+    if (sb == static_cast<int>(SA))
+        overlap2<L, SA, SA>(ta, ia, tb, ib);
+    else
+        overlap2<L, SA, NEXT>(ta, ia, tb, ib);
+}
+
 template <typename L>
 static void run_ops(const std::string& ops)
 {
@@ -243,6 +292,36 @@ static void run_ops(const std::string& ops)
                 break;
             default:
                 T2<R>::set_severity(s);
+            }
+        }
+        else if (t[0] == "ov")
+        {
+            int sa = std::stoi(t[1]), sb = std::stoi(t[4]);
+            std::string tas = t[2] == "~" ? std::string() : nv::unhex(t[2]);
+            std::string tbs = t[5] == "~" ? std::string() : nv::unhex(t[5]);
+            const char* ta = t[2] == "~" ? nullptr : tas.c_str();
+            const char* tb = t[5] == "~" ? nullptr : tbs.c_str();
+            auto ia = parse_items(t[3]);
+            auto ib = parse_items(t[6]);
+            switch (sa)
+            {
+            case 0:
+                overlap1<L, sl::trace>(sb, ta, ia, tb, ib);
+                break;
+            case 1:
+                overlap1<L, sl::debug>(sb, ta, ia, tb, ib);
+                break;
+            case 2:
+                overlap1<L, sl::info>(sb, ta, ia, tb, ib);
+                break;
+            case 3:
+                overlap1<L, sl::warn>(sb, ta, ia, tb, ib);
+                break;
+            case 4:
+                overlap1<L, sl::error>(sb, ta, ia, tb, ib);
+                break;
+            default:
+                overlap1<L, sl::fatal>(sb, ta, ia, tb, ib);
             }
         }
         else if (t[0] == "st")
